@@ -260,6 +260,9 @@ def run(ctx):
     if want is not None:
         wz = want.get("z", want)
         cases = [c for c in cases if c["z"] == wz]
+    elif ctx.thorough:
+        # thorough: all zones of <= 2 lines in every shape; 3-line zones in the shapes that differ in how the zone is reached
+        cases = [c for c in cases if len(c["z"]["ls"]) <= 2 or (c["z"]["shape"] in ("top", "d1", "bare", "tworev") and c["z"]["tag"] != "python")]
     elif not ctx.thorough:
         # quick: all single-line zones, and two-line zones for the plain shapes only
         cases = [c for c in cases if len(c["z"]["ls"]) <= 1 or c["z"]["shape"] in ("top", "d1", "sec", "bare", "tworev")]
